@@ -244,6 +244,64 @@ fn walk_file(w: &mut W, file: &SimFile, inv_objects: Option<&[(u64, ObjKind)]>) 
         walk_tree!(&names.ids, "NameTree::walk");
         walk_tree!(&names.urls, "NameTree::walk");
         walk_tree!(&names.embedded_files, "NameTree::walk");
+        // embedded files: every file specification's streams, typed, with their data
+        if let Some(t) = &names.embedded_files {
+            let mut streams: Vec<Ref<Stream<EmbeddedFile>>> = Vec::new();
+            let _ = w.call("NameTree::walk", || {
+                t.walk(&res, &mut |_, spec: &FileSpec| {
+                    if let Some(ef) = &spec.ef {
+                        streams.extend([ef.f, ef.uf, ef.dos, ef.mac, ef.unix].into_iter().flatten());
+                    }
+                })
+            });
+            for r in streams.into_iter().take(8) {
+                let s = w.call("get<Stream<EmbeddedFile>>", || res.get(r));
+                if let Some(s) = &s {
+                    w.note("ef", s);
+                }
+                if let Some(Ok(s)) = s {
+                    let d = w.call("Stream<EmbeddedFile>::data", || (**s.data()).data(&res).map(|d| d.len()));
+                    if let Some(d) = d {
+                        w.note("efdata", &d);
+                    }
+                }
+            }
+        }
+    }
+    if let Some(m) = root.metadata {
+        let s = w.call("get<Stream<()>>", || res.get(m));
+        if let Some(s) = &s {
+            w.note("metadata", s);
+        }
+        if let Some(Ok(s)) = s {
+            let d = w.call("Stream<()>::data", || (**s.data()).data(&res).map(|d| d.len()));
+            if let Some(d) = d {
+                w.note("metadata-data", &d);
+            }
+        }
+    }
+    if let Some(st) = &root.struct_tree_root {
+        for e in st.children.iter().take(8) {
+            let r = w.call("get<StructElem>", || res.get(e.parent).map(|_| ()));
+            if let Some(r) = r {
+                w.note("struct-parent", &r);
+            }
+            if let Some(pg) = e.page {
+                let r = w.call("get<Page>", || res.get(pg).map(|_| ()));
+                if let Some(r) = r {
+                    w.note("struct-page", &r);
+                }
+            }
+        }
+    }
+    if let Some(dests) = &root.dests {
+        let entries: Vec<Primitive> = dests.iter().take(8).map(|(_, v)| v.clone()).collect();
+        for v in entries {
+            let r = w.call("Option<Dest>::from_primitive", || <Option<Dest>>::from_primitive(v, &res).map(|_| ()));
+            if let Some(r) = r {
+                w.note("dest", &r);
+            }
+        }
     }
     if let Some(labels) = &root.page_labels {
         let mut count = 0usize;
@@ -263,8 +321,25 @@ fn walk_file(w: &mut W, file: &SimFile, inv_objects: Option<&[(u64, ObjKind)]>) 
             match w.call("get<OutlineItem>", || res.get(r)) {
                 Some(Ok(item)) => {
                     next = item.next;
-                    if let Some(f) = item.first {
-                        let _ = w.call("get<OutlineItem>", || res.get(f).map(|_| ()));
+                    if let Some(d) = &item.dest {
+                        let d = d.clone();
+                        let r = w.call("Option<Dest>::from_primitive", || <Option<Dest>>::from_primitive(d, &res).map(|_| ()));
+                        if let Some(r) = r {
+                            w.note("outline-dest", &r);
+                        }
+                    }
+                    // the first chain below every top-level item, to a bounded depth
+                    let mut down = item.first;
+                    let mut levels = 0;
+                    while let Some(f) = down {
+                        levels += 1;
+                        if levels > 8 {
+                            break;
+                        }
+                        match w.call("get<OutlineItem>", || res.get(f)) {
+                            Some(Ok(child)) => down = child.first,
+                            _ => break,
+                        }
                     }
                 }
                 _ => break,
